@@ -2,11 +2,11 @@ import Ggql.Driver.C04
 namespace Ggql.Driver.C11
 open Ggql Ggql.Coerce Ggql.Args Ggql.Driver.C04
 
-/-- D25 (hand-set): argument literals are updated in place by replaceArgVars / Input.CoerceIn / List.CoerceIn -/
-def d25 : Bool := true
-
-/-- case: (c11 INPUTS VDEFS DECL GIVEN (l SUPPLIED…) HINTS); obs: (obs (l (r ONCE FRESH)…) printedSame) -/
+/-- D25 (read by the translator from replaceArgVars / Input.CoerceIn / List.CoerceIn): argument literals are
+updated in place.
+case: (c11 INPUTS VDEFS DECL GIVEN (l SUPPLIED…) HINTS); obs: (obs (l (r ONCE FRESH)…) printedSame) -/
 def handle (tb : Tables) (c impl : T) : String :=
+  let d25 := tb.argsInPlace
   match c with
   | .node "c11" [ins, vds, decl, given, calls, hs] =>
     match (do
@@ -42,6 +42,6 @@ def handle (tb : Tables) (c impl : T) : String :=
         else "mismatch " ++ (if specOk then "spec-ok " else "spec-bad ") ++ cur.render
   | _ => "bad-op"
 
-def flags (_tb : Tables) : List (String × Bool) := [("D25", d25)]
+def flags (tb : Tables) : List (String × Bool) := [("D25", tb.argsInPlace)]
 
 end Ggql.Driver.C11
